@@ -117,6 +117,19 @@ def gen_broker_scenario(rng, lazy=False, style=None, malformed=False, limit_orde
             ops.append(dict(op="send", order=order("MarketBuy", s1, float(max(1, math.floor(cash / first[s1][1] / 2))))))
     elif pat < 0.6:
         ops.append(dict(op="diff", weights=gen_weights(rng)))
+    elif pat < 0.78:
+        # round trips through a flat position, long and short, then a new position: the cost basis must restart
+        # from the point the position was last flat whichever side closed it
+        k = float(rng.choice([1, 5, 10]))
+        m = float(rng.choice([2, 3, 7]))
+        open_side, close_side = rng.choice([("MarketSell", "MarketBuy"), ("MarketBuy", "MarketSell")])
+        reopen = rng.choice(["MarketBuy", "MarketBuy", "MarketSell"])
+        for t, q in ((open_side, k), (close_side, k), (reopen, m)):
+            ops.append(dict(op="send", order=order(t, s0, q)))
+            ops += [dict(op="check"), dict(op="getters")]
+        if rng.random() < 0.5:
+            ops.append(dict(op="send", order=order(rng.choice(["MarketBuy", "MarketSell"]), s0, float(rng.choice([1, 2, 4])))))
+            ops += [dict(op="check"), dict(op="getters")]
     n_ops = rng.randint(8, 30)
     for _ in range(n_ops):
         r = rng.random()
